@@ -890,3 +890,29 @@ package app
 // configuration assumption (defaults "" and "external"; not validated by Config.Validate): the two channels differ
 //@ func (*app.App).repairSlaveNode
 //@   requires channels [config]: app.config.ReplicationChannel != app.config.ExternalReplicationChannel
+// ---- C20: thin contracts that bring more of the reachable functions into the sweep -------------------------------------
+//@ define valsOK(cs map[string]*nodestate.NodeState) = forall k string :: has(cs, k) ==> cs[k] != nil
+//@ func (*app.App).getLocalDaemonState
+//@   ensures C20.daemon_state [C20]: result1 == nil ==> result0 != nil
+//@ func (*app.App).checkCrashRecovery
+//@   ensures C20.swept [C20]: true
+//@ func (*app.App).checkMasterVisible
+//@   requires c20 [safety]: valsOK(clusterStateFromDB) && valsOK(clusterStateDcs)
+//@ func (*app.App).checkQuorum
+//@   requires c20 [safety]: valsOK(clusterStateFromDB) && valsOK(clusterStateDcs)
+//@ func (*app.App).disableSemiSyncIfNonNeeded
+//@   requires c20 [safety]: node != nil && state != nil
+//@ func (*app.App).logSwitchoverFailure
+//@   requires c20 [safety]: sw != nil
+//@ func (*app.App).chooseReplicaToOptimize
+//@   ensures C20.swept [C20]: true
+//@ func (*app.App).getMostDesirableReplicaToOptimize
+//@   requires c20 [safety]: forall k int :: in_range(k, positions) ==> positions[k].gtidset != nil
+//@ func (*app.App).optimizeReplicaWithSmallestLag
+//@   requires c20 [safety]: optOK(app) && clusterAdapter != nil
+//@ func (*app.App).updateReplMonTS
+//@   ensures C20.swept [C20]: true
+//@ func app.getDubiousHAHosts
+//@   requires c20 [safety]: valsOK(clusterState)
+//@ func app.calcLagBytes
+//@   ensures C20.swept [C20]: true
